@@ -63,6 +63,8 @@ int  dnse_tcp_open_conns(int ns);
 void dnse_settle(void);
 /* wait (bounded, real time) until fd is readable; used after sending a UDP reply to libevent's socket */
 void dnse_wait_readable(int fd);
+/* called from the sendto wrap for every datagram libevent sends to a fake nameserver (before it is sent) */
+extern void (*dnse_udp_send_hook)(int ns, const void *pkt, int len);
 extern long dnse_stream_sockets;                  /* TCP sockets libevent created (never reset) */
 long dnse_udp_sent_total(void);                   /* datagrams libevent sent to any fake nameserver in this execution */
 extern long dnse_spins;                           /* how often a wait actually had to wait */
